@@ -414,7 +414,17 @@ func checkC17(c *chk.Ctx) {
 			c.Done()
 		}
 	}
-	if err := w.WriteDriver("drv", []work.PkgSpec{{ImportPath: "scratch/gen/cc", Server: true, Client: true, Mock: true}}); err != nil {
+	// the same schema with the methods of every service declared in the opposite order (package cr): what a
+	// route demands must not depend on which routes are declared before or after it
+	schemaR := reorderedTwin(schema)
+	emR, err := w.Emit(set, schemaR, work.EmitOpts{Plugins: []string{"go-http"}})
+	if err != nil {
+		c.Broken("%v", err)
+	}
+	if r := emR.Results["go-http"]; !r.OK() {
+		c.Broken("go-http refused the reordered twin of the schema: %s", firstN(r.Error, 300))
+	}
+	if err := w.WriteDriver("drv", []work.PkgSpec{{ImportPath: "scratch/gen/cc", Server: true, Client: true, Mock: true}, {ImportPath: "scratch/gen/cr", Server: true}}); err != nil {
 		c.Broken("%v", err)
 	}
 	bin, bout, err := w.BuildBinary("./drv", "drvrace", "-race")
@@ -474,6 +484,7 @@ func checkC17(c *chk.Ctx) {
 	}
 	// reference ops: every distinct call alone, fresh server, fresh client, sequentially
 	refID := map[string]int{}
+	refID2 := map[string]int{} // the same call alone on the reordered twin
 	var refOps []drv.Op
 	for _, k := range order {
 		cc := distinct[k]
@@ -485,6 +496,17 @@ func checkC17(c *chk.Ctx) {
 		op.Handler = drv.HandlerCfg{Kind: "ok", RespType: "cc.v1.Out", RespB64: respFor(em.Built, cc.key)}
 		refOps = append(refOps, op)
 		refID[k] = id
+		if op.Op == "raw" {
+			id++
+			op2 := op
+			op2.Case, op2.Pkg = id, "gen/cr"
+			if strings.HasPrefix(op2.URL, "/cc/") { // (the default route of an RPC without http config names the package)
+				op2.URL = "/cr/" + strings.TrimPrefix(op2.URL, "/cc/")
+			}
+			op2.Handler.RespType = strings.Replace(op2.Handler.RespType, "cc.v1.", "cr.v1.", 1)
+			refOps = append(refOps, op2)
+			refID2[k] = id
+		}
 	}
 	// "alone" means alone: every reference call runs in a process of its own, so that state the emitted
 	// package keeps for the whole process (package-level tables, memos, pools) cannot carry anything
@@ -516,9 +538,20 @@ func checkC17(c *chk.Ctx) {
 		c.Infof("race detector reported during the isolated reference runs (sequential): %s", firstN(refRaces[0], 300))
 	}
 	alone := map[string]concOutcome{}
+	alone2 := map[string]concOutcome{}
 	for _, k := range order {
 		o, _ := concOutcomeOf(em.Built, refEv[fmt.Sprintf("%d/1", refID[k])])
 		alone[k] = o
+		if id2, ok := refID2[k]; ok {
+			evs := refEv[fmt.Sprintf("%d/1", id2)]
+			for _, e := range evs {
+				if t, ok := e["type"].(string); ok {
+					e["type"] = strings.Replace(t, "cr.v1.", "cc.v1.", 1)
+				}
+			}
+			o2, _ := concOutcomeOf(em.Built, evs)
+			alone2[k] = o2
+		}
 	}
 	conEv, races := runDrvRace(c, bin, w.Root, ops, "conc")
 	if len(races) > 0 && strings.HasPrefix(races[0], "CRASH ") {
@@ -633,7 +666,7 @@ func checkC17(c *chk.Ctx) {
 				c.Broken("no events for op %d", in.id)
 			}
 			first := evs[0]["gseq"].(float64)
-			ls = append(ls, line{first - 0.5, jsonLine(map[string]any{"event": "Begin", "id": in.id, "alone": alone[in.cc.key], "label": firstN(in.cc.label, 200)})})
+			ls = append(ls, line{first - 0.5, beginLine(in.id, alone[in.cc.key], alone2, in.cc.key, firstN(in.cc.label, 200))})
 			last := first
 			for _, e := range evs {
 				gs := e["gseq"].(float64)
@@ -711,4 +744,33 @@ func respFor(b *abs.Built, key string) string {
 	addr.Set(afd.Message().Fields().ByName("city"), protoreflect.ValueOfString(fmt.Sprintf("city-%d", h%7)))
 	addr.Set(afd.Message().Fields().ByName("zip"), protoreflect.ValueOfString(fmt.Sprintf("%05d", h%100000)))
 	return base64.StdEncoding.EncodeToString(val.Det(out))
+}
+
+// beginLine: the call enters the system; it carries what the call yields alone, and - for raw requests -
+// what it yields alone on the twin server whose routes were declared in the opposite order.
+func beginLine(id int, alone concOutcome, alone2 map[string]concOutcome, key, label string) string {
+	m := map[string]any{"event": "Begin", "id": id, "alone": alone, "label": label}
+	if o2, ok := alone2[key]; ok {
+		m["alone2"] = o2
+	}
+	return jsonLine(m)
+}
+
+// reorderedTwin copies the schema into package cr with the methods of every service in reverse order.
+func reorderedTwin(s *abs.Schema) *abs.Schema {
+	b, _ := json.Marshal(s)
+	t := strings.NewReplacer("cc.v1", "cr.v1", "scratch/gen/cc;cc", "scratch/gen/cr;cr", "cc/svc.proto", "cr/svc.proto").Replace(string(b))
+	var out abs.Schema
+	if err := json.Unmarshal([]byte(t), &out); err != nil {
+		panic(err)
+	}
+	for _, f := range out.Files {
+		for _, sv := range f.Services {
+			for a, z := 0, len(sv.Methods)-1; a < z; a, z = a+1, z-1 {
+				sv.Methods[a], sv.Methods[z] = sv.Methods[z], sv.Methods[a]
+			}
+		}
+	}
+	out.Normalize()
+	return &out
 }
